@@ -45,11 +45,23 @@ pub mod c04;
 pub mod c05;
 pub mod c06;
 #[cfg(feature = "full")]
+pub mod c07;
+#[cfg(feature = "full")]
+pub mod c08;
+#[cfg(feature = "full")]
 pub mod c09;
 #[cfg(feature = "full")]
 pub mod c16;
 #[cfg(feature = "full")]
+pub mod c17;
+#[cfg(feature = "full")]
+pub mod c18;
+#[cfg(feature = "full")]
+pub mod c20;
+#[cfg(feature = "full")]
 pub mod util;
+#[cfg(feature = "full")]
+pub mod c10;
 #[cfg(feature = "full")]
 pub mod c11;
 #[cfg(feature = "full")]
@@ -72,5 +84,5 @@ pub fn all() -> Vec<PropDef> {
 
 #[cfg(feature = "full")]
 fn full() -> Vec<PropDef> {
-    vec![c01::DEF, c02::DEF, c03::DEF, c05::DEF, c09::DEF, c11::DEF, c12::DEF, c13::DEF, c14::DEF, c15::DEF, c16::DEF]
+    vec![c01::DEF, c02::DEF, c03::DEF, c05::DEF, c07::DEF, c08::DEF, c09::DEF, c10::DEF, c11::DEF, c12::DEF, c13::DEF, c14::DEF, c15::DEF, c16::DEF, c17::DEF, c18::DEF, c20::DEF]
 }
